@@ -740,3 +740,291 @@ crate::harnesses! {
     c07_tcp = tcp::<7>; unwind 4,
     c07_icmp = icmp::<7>; unwind 4,
 }
+
+// ------------------------------------------------------------------ whole packet glue (cursor)
+
+pub mod glue {
+    use super::*;
+    use crate::refm::{RNet, RWalk, Start};
+
+    pub fn check_packet_error(e: &err::packet::SliceError, f: &RFault) {
+        use err::packet::SliceError as E;
+        match e {
+            E::Len(l) => {
+                witness!(l.layer_start_offset > 0, "7|err_behind_a_prefix");
+                if l.len_source == LenSource::MacsecShortLength && l.layer == Layer::MacsecPacket {
+                    witness!(true, "7|KF:c07-macsec-short-len-source");
+                    let mut l2 = l.clone();
+                    l2.len_source = LenSource::Slice;
+                    check_len_error(&l2, f, 0);
+                } else if l.len_source == LenSource::ArpAddrLengths {
+                    witness!(true, "7|KF:c07-arp-addr-len-source");
+                    let mut l2 = l.clone();
+                    l2.len_source = LenSource::Slice;
+                    check_len_error(&l2, f, 0);
+                } else {
+                    check_len_error(l, f, 0);
+                }
+            }
+            E::LinuxSll(err::linux_sll::HeaderError::UnsupportedPacketTypeField { packet_type }) => {
+                assert!(f.want == Want::SllPacketType(*packet_type));
+            }
+            E::LinuxSll(err::linux_sll::HeaderError::UnsupportedArpHardwareId { arp_hardware_type }) => {
+                assert!(f.want == Want::SllHwType(u16::from(*arp_hardware_type)));
+            }
+            E::Macsec(err::macsec::HeaderError::UnexpectedVersion) => assert!(f.want == Want::MacsecVersion),
+            E::Macsec(err::macsec::HeaderError::InvalidUnmodifiedShortLen) => assert!(f.want == Want::MacsecShortLenOne),
+            E::Ip(err::ip::HeaderError::UnsupportedIpVersion { version_number }) => {
+                assert!(f.want == Want::IpVersion(*version_number));
+            }
+            E::Ip(err::ip::HeaderError::Ipv4HeaderLengthSmallerThanHeader { ihl }) => assert!(f.content_is(Want::V4Ihl(*ihl))),
+            E::Ipv4(err::ipv4::HeaderError::UnexpectedVersion { version_number }) => {
+                assert!(f.content_is(Want::V4Version(*version_number)));
+            }
+            E::Ipv4(err::ipv4::HeaderError::HeaderLengthSmallerThanHeader { ihl }) => assert!(f.content_is(Want::V4Ihl(*ihl))),
+            E::Ipv6(err::ipv6::HeaderError::UnexpectedVersion { version_number }) => {
+                assert!(f.want == Want::V6Version(*version_number));
+            }
+            E::Ipv4Exts(err::ip_auth::HeaderError::ZeroPayloadLen) => assert!(f.want == Want::AuthZeroLen),
+            E::Ipv6Exts(err::ipv6_exts::HeaderError::HopByHopNotAtStart) => assert!(f.want == Want::HopByHopNotFirst),
+            E::Ipv6Exts(err::ipv6_exts::HeaderError::IpAuth(err::ip_auth::HeaderError::ZeroPayloadLen)) => {
+                assert!(f.want == Want::AuthZeroLen);
+            }
+            E::Tcp(err::tcp::HeaderError::DataOffsetTooSmall { data_offset }) => {
+                assert!(f.want == Want::TcpDataOffset(*data_offset));
+            }
+        }
+    }
+
+    pub fn check_layers(s: &[u8], start: Start, p: &SlicedPacket, w: &RWalk) {
+        // link
+        match (&p.link, start) {
+            (Some(LinkSlice::Ethernet2(e)), Start::Ethernet) => {
+                assert!(off(s, e.header_slice()) == 0 && off(s, e.payload_slice()) == 14);
+            }
+            (Some(LinkSlice::LinuxSll(l)), Start::Sll) => {
+                assert!(off(s, l.header_slice()) == 0 && off(s, l.payload_slice()) == 16);
+            }
+            (Some(LinkSlice::EtherPayload(e)), Start::EtherType(et)) => {
+                assert!(e.ether_type.0 == et && off(s, e.payload) == 0 && e.payload.len() == s.len());
+            }
+            (None, Start::Ip) => {}
+            _ => assert!(false, "C03: wrong link layer"),
+        }
+        // link extensions
+        assert!(p.link_exts.len() == w.n_exts, "C03: wrong number of link extensions");
+        // (unrolled: no loop, so that the unwind bound of a shaped harness is the depth of its stacking)
+        check_ext(s, p, w, 0);
+        check_ext(s, p, w, 1);
+        check_ext(s, p, w, 2);
+        // network
+        match (&p.net, &w.net) {
+            (None, None) => {}
+            (Some(NetSlice::Arp(a)), Some(RNet::Arp { off: o, len })) => {
+                assert!(off(s, a.slice()) == *o && a.slice().len() == *len);
+            }
+            (Some(NetSlice::Ipv4(v4)), Some(RNet::Ip { off: o, ip })) => {
+                assert!(!ip.v6);
+                assert!(off(s, v4.header().slice()) == *o && v4.header().slice().len() == ip.hlen);
+                assert!(v4.extensions().auth.is_some() == (ip.n_exts == 1));
+                check_payload(s, v4.payload(), *o, ip);
+            }
+            (Some(NetSlice::Ipv6(v6)), Some(RNet::Ip { off: o, ip })) => {
+                assert!(ip.v6);
+                assert!(off(s, v6.header().slice()) == *o);
+                assert!(v6.extensions().slice().len() == ip.exts_len);
+                check_payload(s, v6.payload(), *o, ip);
+            }
+            _ => assert!(false, "C03: wrong network layer"),
+        }
+        // transport
+        match (&p.transport, &w.tr) {
+            (None, None) => {}
+            (Some(TransportSlice::Udp(u)), Some((o, t))) => {
+                assert!(t.layer == RL::Udp);
+                assert!(off(s, u.slice()) == *o && u.slice().len() == t.len, "C03: UDP range");
+                assert!(off(s, u.payload()) == *o + 8 && u.payload().len() == t.len - 8);
+            }
+            (Some(TransportSlice::Tcp(x)), Some((o, t))) => {
+                assert!(t.layer == RL::Tcp);
+                assert!(off(s, x.slice()) == *o && x.slice().len() == t.len && x.header_len() == t.hlen);
+                assert!(off(s, x.payload()) == *o + t.hlen && x.payload().len() == t.len - t.hlen);
+            }
+            (Some(TransportSlice::Icmpv4(x)), Some((o, t))) => {
+                assert!(t.layer == RL::Icmp4);
+                assert!(off(s, x.slice()) == *o && x.slice().len() == t.len && x.header_len() == t.hlen);
+            }
+            (Some(TransportSlice::Icmpv6(x)), Some((o, t))) => {
+                assert!(t.layer == RL::Icmp6);
+                assert!(off(s, x.slice()) == *o && x.slice().len() == t.len);
+            }
+            _ => assert!(false, "C03: wrong transport layer"),
+        }
+    }
+
+    fn check_ext(s: &[u8], p: &SlicedPacket, w: &RWalk, i: usize) {
+        if i < w.n_exts {
+            let x = &w.exts[i];
+            match &p.link_exts[i] {
+                LinkExtSlice::Vlan(v) => {
+                    assert!(x.kind == RL::Vlan);
+                    assert!(off(s, v.header_slice()) == x.off, "C03: VLAN tag at the wrong offset");
+                }
+                LinkExtSlice::Macsec(m) => {
+                    assert!(x.kind == RL::Macsec);
+                    assert!(off(s, m.header.slice()) == x.off && m.header.slice().len() == x.hlen);
+                }
+            }
+        }
+    }
+
+    fn check_payload(s: &[u8], p: &IpPayloadSlice, o: usize, ip: &refm::RIp) {
+        assert!(off(s, p.payload) == o + ip.payload_off, "C03: IP payload starts at the wrong offset");
+        assert!(p.payload.len() == ip.payload_len, "C03: IP payload has the wrong length");
+        assert!(p.ip_number.0 == ip.proto && p.fragmented == ip.fragmented);
+    }
+
+    pub fn run<const MODE: u8, const N: usize>(start: Start, shape: fn(&mut [u8; N])) {
+        let mut data: [u8; N] = any();
+        shape(&mut data);
+        let s = &data[..any_le(N)];
+        let w = refm::walk(start, s, false);
+        let r = match start {
+            Start::Ethernet => SlicedPacket::from_ethernet(s),
+            Start::Sll => SlicedPacket::from_linux_sll(s),
+            Start::EtherType(et) => SlicedPacket::from_ether_type(EtherType(et), s),
+            Start::Ip => SlicedPacket::from_ip(s),
+        };
+        match r {
+            Ok(p) => {
+                assert!(w.fault.is_none(), "C03: accepted although the reference rejects");
+                if MODE == 3 {
+                    witness!(p.transport.is_some() || p.net.is_some() || p.link_exts.len() == 3, "3|ok_deep");
+                    check_layers(s, start, &p, &w);
+                }
+            }
+            Err(e) => {
+                assert!(w.fault.is_some(), "C03: rejected although the reference accepts");
+                if MODE == 7 {
+                    check_packet_error(&e, &w.fault.unwrap());
+                }
+            }
+        }
+    }
+
+    // ---- shapes: concrete ether types / protocol numbers / header sizes select ONE stacking; every other
+    //      byte (all length fields, flags, fragment bits, sizes) and the slice length stay symbolic
+
+    /// MACsec(unmodified, no SCI, symbolic short length) -> VLAN -> IPv4(no options) -> UDP
+    pub fn shape_macsec_vlan_ipv4_udp<const MODE: u8>() {
+        run::<MODE, 42>(Start::EtherType(refm::ET_MACSEC), |d| {
+            d[0] = 0x01;
+            d[6] = 0x81;
+            d[7] = 0x00;
+            d[10] = 0x08;
+            d[11] = 0x00;
+            d[12] = 0x45;
+            d[12 + 9] = 17;
+        });
+    }
+
+    /// IPv6 -> routing header (symbolic length) -> UDP
+    pub fn shape_ipv6_route_udp<const MODE: u8>() {
+        run::<MODE, 60>(Start::Ip, |d| {
+            d[0] = 0x60 | (d[0] & 0xf);
+            d[6] = 43;
+            d[40] = 17;
+        });
+    }
+
+    /// SLL (Ethernet hardware type, host packet) -> ARP with symbolic address sizes
+    pub fn shape_sll_arp<const MODE: u8>() {
+        run::<MODE, 44>(Start::Sll, |d| {
+            d[0] = 0;
+            d[1] = 0;
+            d[2] = 0;
+            d[3] = 1;
+            d[14] = 0x08;
+            d[15] = 0x06;
+        });
+    }
+
+    /// four stacked VLAN tags: only three link extensions are decoded
+    pub fn shape_vlan_x4<const MODE: u8>() {
+        run::<MODE, 20>(Start::EtherType(refm::ET_QINQ), |d| {
+            d[2] = 0x91;
+            d[3] = 0x00;
+            d[6] = 0x81;
+            d[7] = 0x00;
+            d[10] = 0x81;
+            d[11] = 0x00;
+        });
+    }
+
+    /// Ethernet -> IPv4 (symbolic IHL) -> TCP
+    pub fn shape_eth_ipv4_tcp<const MODE: u8>() {
+        run::<MODE, 62>(Start::Ethernet, |d| {
+            d[12] = 0x08;
+            d[13] = 0x00;
+            d[14] = 0x40 | (d[14] & 0xf);
+            d[14 + 9] = 6;
+        });
+    }
+
+    /// IPv4 (no options) -> ICMPv4 (timestamp rule) / fragment handling
+    pub fn shape_ipv4_icmp<const MODE: u8>() {
+        run::<MODE, 44>(Start::Ip, |d| {
+            d[0] = 0x45;
+            d[9] = 1;
+        });
+    }
+
+    /// IPv6 -> fragment header -> ICMPv6 (not decoded when the fragment header fragments)
+    pub fn shape_ipv6_frag_icmp6<const MODE: u8>() {
+        run::<MODE, 60>(Start::Ip, |d| {
+            d[0] = 0x60 | (d[0] & 0xf);
+            d[6] = 44;
+            d[40] = 58;
+        });
+    }
+
+    // ---- unshaped: every byte symbolic (thorough tier)
+    pub fn any_ether_type<const MODE: u8, const N: usize>() {
+        let et: u16 = any();
+        run::<MODE, N>(Start::EtherType(et), |_| {});
+    }
+    pub fn any_ip<const MODE: u8, const N: usize>() {
+        run::<MODE, N>(Start::Ip, |_| {});
+    }
+    pub fn any_ethernet<const MODE: u8, const N: usize>() {
+        run::<MODE, N>(Start::Ethernet, |_| {});
+    }
+    pub fn any_sll<const MODE: u8, const N: usize>() {
+        run::<MODE, N>(Start::Sll, |_| {});
+    }
+
+    crate::harnesses! {
+        c03_glue_macsec_vlan_ipv4_udp = shape_macsec_vlan_ipv4_udp::<3>; unwind 4,
+        c03_glue_ipv6_route_udp = shape_ipv6_route_udp::<3>; unwind 3,
+        c03_glue_sll_arp = shape_sll_arp::<3>; unwind 2,
+        c03_glue_vlan_x4 = shape_vlan_x4::<3>; unwind 5,
+        c03_glue_eth_ipv4_tcp = shape_eth_ipv4_tcp::<3>; unwind 2,
+        c03_glue_ipv4_icmp = shape_ipv4_icmp::<3>; unwind 2,
+        c03_glue_ipv6_frag_icmp6 = shape_ipv6_frag_icmp6::<3>; unwind 3,
+        c03_glue_any_ether_type_44 = any_ether_type::<3, 44>; unwind 5,
+        c03_glue_any_ip_48 = any_ip::<3, 48>; unwind 5,
+        c03_glue_any_ethernet_48 = any_ethernet::<3, 48>; unwind 5,
+        c03_glue_any_sll_44 = any_sll::<3, 44>; unwind 5,
+        c07_glue_macsec_vlan_ipv4_udp = shape_macsec_vlan_ipv4_udp::<7>; unwind 4,
+        c07_glue_ipv6_route_udp = shape_ipv6_route_udp::<7>; unwind 3,
+        c07_glue_sll_arp = shape_sll_arp::<7>; unwind 2,
+        c07_glue_vlan_x4 = shape_vlan_x4::<7>; unwind 5,
+        c07_glue_eth_ipv4_tcp = shape_eth_ipv4_tcp::<7>; unwind 2,
+        c07_glue_ipv4_icmp = shape_ipv4_icmp::<7>; unwind 2,
+        c07_glue_ipv6_frag_icmp6 = shape_ipv6_frag_icmp6::<7>; unwind 3,
+        c07_glue_any_ether_type_44 = any_ether_type::<7, 44>; unwind 5,
+        c07_glue_any_ip_48 = any_ip::<7, 48>; unwind 5,
+        c07_glue_any_ethernet_48 = any_ethernet::<7, 48>; unwind 5,
+        c07_glue_any_sll_44 = any_sll::<7, 44>; unwind 5,
+    }
+}
